@@ -47,3 +47,53 @@ Print Assumptions C15_decode_with_length_framing_ber.
 Theorem C15_decode_with_length_framing_der : ltac:(let T := type of Asn1V.Props.C03.C03_der_roundtrip in exact T).
 Proof. exact Asn1V.Props.C03.C03_der_roundtrip. Qed.
 Print Assumptions C15_decode_with_length_framing_der.
+
+(** ------------------------------------------------------------------
+    The probe agrees with the decoder (Ber/HeaderAgree.v).  For EVERY
+    well-formed BER tree [x] whose outermost length is definite — whatever forms
+    are used inside: padded lengths, constructed strings with zero, one or many
+    segments, indefinite lengths on inner nodes — every tail and every prefix
+    length [k]: the probe answers [length (bser x)] exactly when the prefix
+    covers the identifier and length octets of [x], "not yet known" otherwise;
+    and under C04's hypotheses the decoder's end offset on [bser x ++ tail] IS
+    that answer.
+    (statements = the types of [probe_on_tree] / [probe_agrees_with_decoder]) *)
+From Asn1V Require Ber.HeaderAgree.
+
+Theorem C15_probe_on_tree : ltac:(let T := type of Asn1V.Ber.HeaderAgree.probe_on_tree in exact T).
+Proof. exact Asn1V.Ber.HeaderAgree.probe_on_tree. Qed.
+Print Assumptions C15_probe_on_tree.
+
+Theorem C15_probe_agrees_with_decoder : ltac:(let T := type of Asn1V.Ber.HeaderAgree.probe_agrees_with_decoder in exact T).
+Proof. exact Asn1V.Ber.HeaderAgree.probe_agrees_with_decoder. Qed.
+Print Assumptions C15_probe_agrees_with_decoder.
+
+(** ------------------------------------------------------------------
+    Tie to the SOURCE TEXT (translator/pyfun.py regenerates coq/gen/PyBer.v from
+    asn1tools/codecs/ber.py on every run): the regenerated skip_tag,
+    decode_length, skip_tag_length_contents and decode_full_length ARE the model
+    functions of Ber/Header.v, for all data, all offsets, errors included, with
+    an explicit fuel bound that the out-of-fuel outcome never reaches.  An edit
+    of those Python functions therefore breaks one of these obligations.
+    (statements = the types of the theorems of Py/PyBerTie.v; written out in notes/PYFUN.md) *)
+From Asn1V Require Py.PyBerTie.
+
+Theorem C15_src_skip_tag : ltac:(let T := type of Asn1V.Py.PyBerTie.py_skip_tag_eq in exact T).
+Proof. exact Asn1V.Py.PyBerTie.py_skip_tag_eq. Qed.
+Print Assumptions C15_src_skip_tag.
+
+Theorem C15_src_decode_length : ltac:(let T := type of Asn1V.Py.PyBerTie.py_decode_length_eq in exact T).
+Proof. exact Asn1V.Py.PyBerTie.py_decode_length_eq. Qed.
+Print Assumptions C15_src_decode_length.
+
+Theorem C15_src_skip_tag_length_contents : ltac:(let T := type of Asn1V.Py.PyBerTie.py_skip_tag_length_contents_eq in exact T).
+Proof. exact Asn1V.Py.PyBerTie.py_skip_tag_length_contents_eq. Qed.
+Print Assumptions C15_src_skip_tag_length_contents.
+
+Theorem C15_src_decode_full_length : ltac:(let T := type of Asn1V.Py.PyBerTie.py_decode_full_length_eq in exact T).
+Proof. exact Asn1V.Py.PyBerTie.py_decode_full_length_eq. Qed.
+Print Assumptions C15_src_decode_full_length.
+
+Theorem C15_src_decode_full_length_fuel : ltac:(let T := type of Asn1V.Py.PyBerTie.py_decode_full_length_fuel in exact T).
+Proof. exact Asn1V.Py.PyBerTie.py_decode_full_length_fuel. Qed.
+Print Assumptions C15_src_decode_full_length_fuel.
